@@ -396,11 +396,55 @@ def registered_printers_have_models(ctx, rule):
                 if isinstance(t, ast.Subscript) and norm(t.value) == "script_repr_reg":
                     regs.append((norm(t.slice), st))
     ctx.require(len(regs) >= 3, "fewer than 3 registrations in script_repr_reg found (%d)" % len(regs))
-    unknown = [(k, st) for k, st in regs if k not in PRINTER_MODELS]
+    for k, st in regs:
+        if k not in PRINTER_MODELS and isinstance(st.value, ast.Name) and k in ("str",):
+            literal_printer_model(ctx, rule, k, st.value.id, st)
+    unknown = [(k, st) for k, st in regs if k not in PRINTER_MODELS and k not in ("str",)]
     if unknown:
         raise AnalysisError("%s: a printer is registered for `%s` (`%s`) that no printer model of this check interprets -- what pprint emits for such values is not decided" % (
             rule, unknown[0][0], norm(unknown[0][1])[:60]))
     ctx.ok(rule, f, regs[0][1], "every type registered in script_repr_reg (%s) is covered by a printer model or outside the property's value set" % ", ".join(k for k, _ in regs))
+
+
+STR_PROBES = ("", "plain", "two\nlines", 'ends with a quote"\nx"', "back\\slash\nx", "cr\r\nlf", 'has """ inside\n', "tab\tx\n", "trailing backslash\n\\", "\\n literal\n", "caf\u00e9\n")
+
+
+def literal_printer_model(ctx, rule, tname, regname, stmt):
+    """A printer registered for a literal type other than float (str here): interpreted on a fixed set of probe values
+    chosen for what hand-made quoting gets wrong (quotes at the end, backslashes, carriage returns, a quote run inside);
+    the emitted text, parsed with Python's grammar, must be a constant equal to the probe.  A disagreement is a concrete
+    counterexample (violation).  Agreement on the probes proves nothing for all strings: unless every return of the
+    printer is repr() of the value itself, the check says it cannot decide."""
+    f = ctx.repo.func(P + regname)
+    if tname != "str":
+        raise AnalysisError("%s: a printer is registered for `%s` (`%s`) that no printer model of this check interprets" % (rule, tname, norm(stmt)[:60]))
+    bad = []
+    for probe in STR_PROBES:
+        it = Interp(ctx.hier, call_hook=lambda fn, args, kwargs: repr(args[0]) if fn == "repr" and len(args) == 1 and isinstance(args[0], str) else NotImplemented)
+        try:
+            outs = it.run_all(f, {f.params[0]: probe, f.params[1]: [], f.params[2]: "", f.params[3]: []})
+        except Unsupported as e:
+            raise AnalysisError("%s: absint cannot interpret %s: %s" % (rule, regname, e))
+        if len(outs) != 1 or outs[0].imprecise or outs[0].kind != "return" or not isinstance(outs[0].value, str):
+            raise AnalysisError("%s: %s is not interpretable precisely on %r (%s)" % (rule, regname, probe, outs[0].notes[:2] if outs else "no outcome"))
+        ctx.abstract_cases += 1
+        text = outs[0].value
+        try:
+            t = ast.parse(text, mode="eval").body
+            got = t.value if isinstance(t, ast.Constant) and isinstance(t.value, str) else None
+        except (SyntaxError, ValueError):
+            got = None
+        if got != probe:
+            bad.append("%r is printed as the text %s, which %s" % (probe, text if len(text) < 60 else text[:57] + "...", "does not parse" if got is None else "denotes %r" % got))
+    if bad:
+        ctx.fail(rule, f, f.node, "str printer model: %s (%d of %d probe strings disagree): the emitted script does not rebuild the value" % (bad[0], len(bad), len(STR_PROBES)),
+                 key=f.qualname + "::str-printer-model", input="script_repr(P(s=%s))" % bad[0].split(" is printed")[0])
+        return
+    rets = [r for r in ast.walk(f.node) if isinstance(r, ast.Return)]
+    if all(isinstance(r.value, ast.Call) and norm(r.value.func) == "repr" and len(r.value.args) == 1 and norm(r.value.args[0]) == f.params[0] for r in rets):
+        ctx.ok(rule, f, f.node, "the printer registered for str returns repr(value) on every path")
+        return
+    raise AnalysisError("%s: the printer registered for str agrees with the %d probe strings but is not repr(value) on every path: no static argument here covers all strings" % (rule, len(STR_PROBES)))
 
 
 def changed_values_model(ctx, rule):
